@@ -96,6 +96,12 @@ def init_organic_smiles(molecule, smiles):
         molecule.rdkit_conf_gen_is_fine = False
         molecule.atoms = get_simanl_atoms(molecule, save_xyz=False)
 
+    for atom, smiles_atom in zip(molecule.atoms, parser.atoms):
+        atom.atom_class = smiles_atom.atom_class
+
+    # Graph attributes must be set on the graph defined by the SMILES bonds
+    make_graph(species=molecule, bond_list=bonds)
+
     for atom, _ in Chem.FindMolChiralCenters(rdkit_mol):
         molecule.graph.nodes[atom]["stereo"] = True
 
@@ -109,10 +115,6 @@ def init_organic_smiles(molecule, smiles):
             molecule.graph.nodes[idx_i]["stereo"] = True
             molecule.graph.nodes[idx_j]["stereo"] = True
 
-    for atom, smiles_atom in zip(molecule.atoms, parser.atoms):
-        atom.atom_class = smiles_atom.atom_class
-
-    make_graph(species=molecule, bond_list=bonds)
     check_bonds(molecule, bonds=rdkit_mol.GetBonds())
 
     molecule.rdkit_mol_obj = rdkit_mol
@@ -147,15 +149,20 @@ def init_smiles(molecule, smiles):
     except (SMILESBuildFailed, NotImplementedError):
         molecule.atoms = builder.canonical_atoms_at_origin
 
+    make_graph(molecule, bond_list=parser.bonds)
+    check_bonds(molecule, bonds=parser.bonds)
+
     for idx, atom in enumerate(builder.atoms):
         if atom.has_stereochem:
             molecule.graph.nodes[idx]["stereo"] = True
 
-    make_graph(molecule, bond_list=parser.bonds)
-    check_bonds(molecule, bonds=parser.bonds)
-
     for bond in parser.bonds:
-        molecule.graph.edges[tuple(bond)]["pi"] = True
+        idx_i, idx_j = bond
+        if bond.order > 1 or (
+            builder.atoms[idx_i].is_aromatic
+            and builder.atoms[idx_j].is_aromatic
+        ):
+            molecule.graph.edges[idx_i, idx_j]["pi"] = True
 
     if not molecule.has_reasonable_coordinates:
         logger.warning(
